@@ -1,4 +1,5 @@
 import os
+import re
 import sys
 
 from contextlib import contextmanager
@@ -14,6 +15,7 @@ except:
     SUFFIXES = [s for s, _, _ in imp.get_suffixes()]
 
 SOURCE_SUFFIXES = ('.py',)
+IDENTIFIER = re.compile(r'(?!\d)\w+$', re.UNICODE)
 
 if False:
     import typing as t
@@ -73,7 +75,9 @@ class Project(object):
                     if os.path.exists(os.path.join(pdir, name, '__init__.py')):
                         modules.add(name)
 
-        return modules
+        # a file or directory whose name is not an identifier ('my-script.py')
+        # cannot be named in an import statement
+        return set(m for m in modules if IDENTIFIER.match(m))
 
     def _package_dirs(self, name):
         # type: (str) -> list[str]
